@@ -390,7 +390,26 @@ def r9_validation_partition(chk):
                 chk.bad("R9", "validation:" + i.key, i.file, i.line, i.what, i.expected, i.found)
 
 
+def r10_all_instructions_collected(chk):
+    """Requested impl set = instruction set only if every instruction written reaches the attribute tables: imported from C13.R3
+    (source order, whole lists kept, errors propagated)."""
+    from ..core import Check
+    from . import c13
+    sub = Check("C13", chk.repo, chk.tier)
+    sub.guard("R3", lambda: c13.r3(sub))
+    chk.rule("R10", "every instruction written (bare or inside an #[o2o(..)] list) is collected, in written order", floor=4)
+    for r_, why in sub.inconclusive:
+        chk.inconc("R10", why)
+    for i in sub.instances:
+        if i.rule == "R3" and i.key.startswith("get_data_type_attrs"):
+            if i.ok:
+                chk.ok("R10", "collect:" + i.key, i.file, i.line)
+            else:
+                chk.bad("R10", "collect:" + i.key, i.file, i.line, i.what, i.expected, i.found)
+
+
 def run(chk):
+    chk.guard("R10", lambda: r10_all_instructions_collected(chk))
     chk.guard("R9", lambda: r9_validation_partition(chk))
     chk.guard("R8", lambda: r8_typepath_ctor(chk))
     chk.guard("R1", lambda: r1_names(chk))
